@@ -57,6 +57,27 @@ def run(ck):
             r.shuffle(nat)
             fam = red + nat[:8]
         batches.append((9000, fam, e2e.PRELUDE_ATTR + "\n".join(x.text() for x in fam)))
+        # targeted family: zero-width separators and anonymous bit-fields of every type in front of fields of every type (the separator's
+        # type, not the next field's, decides where the next field starts)
+        ubases = ["unsigned char", "unsigned short", "unsigned", "unsigned long long"]
+        sepfam = []
+        k = 0
+        for lead in ubases:
+            for sep in ubases:
+                for nxt in ubases:
+                    for form in (0, 5):
+                        if quick and (k * 7 + form) % 3:
+                            k += 1
+                            continue
+                        rec = e2e.Rec("Z%d" % k)
+                        rec.members = [{"name": "a", "decl": "%s a : 3" % lead, "bitfield": (lead, 3), "anon": False},
+                                       {"name": None, "decl": "%s : %d" % (sep, form), "bitfield": (sep, form), "anon": True},
+                                       {"name": "b", "decl": "%s b : 5" % nxt, "bitfield": (nxt, 5), "anon": False},
+                                       {"name": "c", "decl": "%s c : 4" % nxt, "bitfield": (nxt, 4), "anon": False}]
+                        rec.features = {"bitfield"}
+                        sepfam.append(rec)
+                        k += 1
+        batches.append((9001, sepfam, "\n".join(x.text() for x in sepfam)))
 
         def one(bt):
             b, recs, hdr = bt
@@ -104,7 +125,17 @@ def judge(ck, rec, res, hdr):
     seen_cls = set()
     # a unit at the wrong byte offset shows in the stored bytes of setters (the C bytes, moved); getters of the same record then read
     # the wrong bytes as a consequence
-    unit_shift = any(k == "set" and shifted(dt) for (_, k, _, dt) in mm)
+    def preceded_by_data_member(field):
+        # the known misplacement of an allocation unit needs something in front of the run (a data member or an earlier unit) for the unit
+        # to be placed "right after"; a run that starts the record cannot be affected by it
+        seen = False
+        for x in rec.members:
+            if x["name"] == field:
+                return seen
+            if not x["bitfield"] or (x["bitfield"][1] == 0):
+                seen = seen or not x["bitfield"]
+        return seen
+    unit_shift = any(k == "set" and shifted(dt) and preceded_by_data_member(f_) for (f_, k, _, dt) in mm)
     for m in mm:
         # m = (field, kind, value, detail)
         field, kind, v, detail = m
@@ -115,7 +146,7 @@ def judge(ck, rec, res, hdr):
         elif kind == "get" and SIGNED[base] and w == WIDTH[base]:
             cls = "C03-getter:%s" % grp
             what = "getter disagrees with C"
-        elif (kind == "set" and shifted(detail)) or (unit_shift and rec.kind != "union"):
+        elif preceded_by_data_member(field) and ((kind == "set" and shifted(detail)) or (unit_shift and rec.kind != "union")):
             cls = "C03-unit-offset:%s" % grp
             what = "the allocation unit holding this bit-field sits at a different byte offset than in C (the stored bits are right, %d byte(s) away; getters of the record read the wrong bytes)" % shifted(detail)
         else:
